@@ -175,6 +175,43 @@ func foldKeyRule(c *core.Ctx, rule string, min int) {
 		for _, d := range deletes {
 			uses = append(uses, use{d, "delete of the map slot"})
 		}
+		// collision-chain unlink idiom: P.link = M.link removes M only if P is the element
+		// visited immediately before M, i.e. the loop-carried previous cursor (phi of nil and M).
+		eng.Instrs(f, func(in ssa.Instruction) {
+			st, ok := in.(*ssa.Store)
+			if !ok {
+				return
+			}
+			pfa, ok := st.Addr.(*ssa.FieldAddr)
+			if !ok || !isEntry(pfa.X) {
+				return
+			}
+			ld, ok := st.Val.(*ssa.UnOp)
+			if !ok || ld.Op != token.MUL {
+				return
+			}
+			mfa, ok := ld.X.(*ssa.FieldAddr)
+			if !ok || mfa.Field != pfa.Field || !isEntry(mfa.X) || !types.Identical(mfa.X.Type(), pfa.X.Type()) {
+				return
+			}
+			m := mfa.X
+			okPrev := false
+			if phi, isPhi := pfa.X.(*ssa.Phi); isPhi {
+				okPrev = true
+				hasM := false
+				for _, e := range phi.Edges {
+					switch {
+					case eng.IsNilConst(e):
+					case e == m:
+						hasM = true
+					default:
+						okPrev = false
+					}
+				}
+				okPrev = okPrev && hasM
+			}
+			c.Check(okPrev, rule, name+":chain unlink uses the previous element", st.Pos(), "the element unlinked is bypassed from its immediate predecessor", "collision chain unlink `P.next = M.next` where P is not the loop-carried element visited just before M ("+eng.Describe(pfa.X)+"): entries between P and M are dropped")
+		})
 		if len(uses) == 0 {
 			c.OK(rule, name+":no use", f.Pos(), "fold-keyed lookup whose result is only tested, never used")
 			continue
